@@ -20,15 +20,25 @@ pub(super) struct MulAddFusion<F> {
     use_counts: HashMap<WitnessId, usize>,
     defs: HashMap<WitnessId, IndexedDef<F>>,
     backwards_computed: HashMap<WitnessId, usize>,
+    /// Witnesses set before any op runs and defined by no op (private inputs). An `Add`/`Mul`
+    /// whose `out` is one of these is a backwards op (it solves for `b`), exactly as if `out`
+    /// had been defined by an earlier op.
+    predefined: hashbrown::HashSet<WitnessId>,
 }
 
 impl<F: Field> MulAddFusion<F> {
     /// Scans `ops` to build use-counts, definitions, and backwards-op tracking.
     pub(super) fn new(ops: &[Op<F>]) -> Self {
+        Self::with_predefined(ops, &[])
+    }
+
+    /// Like [`Self::new`], additionally told which witnesses are set before execution starts.
+    pub(super) fn with_predefined(ops: &[Op<F>], predefined: &[WitnessId]) -> Self {
         let mut fusion = Self {
             use_counts: HashMap::new(),
             defs: HashMap::with_capacity(ops.len()),
             backwards_computed: HashMap::new(),
+            predefined: predefined.iter().copied().collect(),
         };
         fusion.scan_use_counts(ops);
         fusion.scan_defs(ops);
@@ -55,7 +65,7 @@ impl<F: Field> MulAddFusion<F> {
     }
 
     fn is_backwards(&self, idx: usize, out: &WitnessId) -> bool {
-        self.def_idx(out).is_some_and(|i| i < idx)
+        self.predefined.contains(out) || self.def_idx(out).is_some_and(|i| i < idx)
     }
 
     /// Inserts a def unless the witness is already a Const (connect aliasing).
